@@ -213,6 +213,14 @@ func init() {
 			return Slice{Arr: arr, Off: x.c64(0), Len: ln, Cap: ln}
 		},
 		"vfetchPush": func(x *X, fn *ssa.Function, a []Value) Value { x.ghostAppend("fetchq", a[0]); return nil },
+		// vfetchPushTimer(id): the runtime timer fires (it is no longer armed) and asserts waker id
+		"vfetchPushTimer": func(x *X, fn *ssa.Function, a []Value) Value {
+			x.ghostAppend("fetchq", Tuple{a[0], x.B.True()})
+			return nil
+		},
+		// vexpectTimerAtBlock(): from now on, a goroutine that goes to sleep in Sleeper.Fetch with
+		// no scripted event left must have a runtime timer armed (else it waits forever)
+		"vexpectTimerAtBlock": func(x *X, fn *ssa.Function, a []Value) Value { x.ghost["timer.expect"] = x.B.True(); return nil },
 		"vreadvPush": func(x *X, fn *ssa.Function, a []Value) Value { x.ghostAppend("readvq", a[0]); return nil },
 		"vrandPush": func(x *X, fn *ssa.Function, a []Value) Value { x.ghostAppend("randq", a[0]); return nil },
 		"vparam": func(x *X, fn *ssa.Function, a []Value) Value {
@@ -365,19 +373,23 @@ func init() {
 		},
 		"time.AfterFunc": func(x *X, fn *ssa.Function, a []Value) Value {
 			x.ghostAppend("timer.AfterFunc", a[0])
+			x.ghost["timer.armed"] = x.B.True()
 			return Pointer{L: x.zeroLoc(fn.Signature.Results().At(0).Type().(*types.Pointer).Elem())}
 		},
 		"time.NewTimer": func(x *X, fn *ssa.Function, a []Value) Value {
 			x.ghostAppend("timer.New", a[0])
+			x.ghost["timer.armed"] = x.B.True()
 			return Pointer{L: x.zeroLoc(fn.Signature.Results().At(0).Type().(*types.Pointer).Elem())}
 		},
 		"(*time.Timer).Stop": func(x *X, fn *ssa.Function, a []Value) Value {
 			x.ghostAppend("timer.Stop", x.c64(0))
+			x.ghost["timer.armed"] = x.B.False()
 			return x.freshVar("timerStop", 0)
 		},
 		"(*time.Timer).Reset": func(x *X, fn *ssa.Function, a []Value) Value {
 			x.ghostAppend("timer.Reset", a[1])
 			x.ghost["timer.lastReset"] = a[1]
+			x.ghost["timer.armed"] = x.B.True()
 			return x.freshVar("timerReset", 0)
 		},
 
@@ -474,9 +486,20 @@ func init() {
 			// after that the wait is the end of the explored step
 			q, _ := x.ghost["fetchq"].([]Value)
 			if len(q) == 0 {
+				if x.ghost["timer.expect"] != nil {
+					armed, _ := x.ghost["timer.armed"].(*T)
+					x.St.Reached["blocked-in-fetch"] = true
+					if armed == nil || !armed.IsTrue() {
+						x.assert(x.B.False(), "a goroutine that waits for events with nothing pending has a timer armed (otherwise it waits forever)", "", nil)
+					}
+				}
 				panic(pathEnd{"blocked", "Sleeper.Fetch: waiting for events"})
 			}
 			x.ghost["fetchq"] = q[1:]
+			if tv, isTimer := q[0].(Tuple); isTimer {
+				x.ghost["timer.armed"] = x.B.False() // it fired
+				return Tuple{tv[0], x.B.True()}
+			}
 			return Tuple{q[0], x.B.True()}
 		},
 		"strings.Index": func(x *X, fn *ssa.Function, a []Value) Value {
